@@ -186,7 +186,7 @@ func init() {
 		RunSpec(c, spec, c.Scale(5000, 200000))
 	}
 	props["C07"] = func(c *Ctx) {
-		c.Res.Rule = "case = 1-3 rewriting stages (label_format with rename chains/swaps and templates incl. a failing one, line_format, drop/keep with bare names and value matchers, decolorize) optionally after a parser stage, over label sets of 0-4 labels and lines incl. SGR-coloured ones; evaluated from query text (so the parser's choice of rename source/target is observed); non-trivial = the stage changes the label set or the line of some record (result differs from the input records) ; distinct by request line"
+		c.Res.Rule = "case = 1-3 rewriting stages (label_format with rename chains/swaps and templates incl. a failing one, line_format, drop/keep with bare names and value matchers, decolorize) optionally after a parser stage (an eighth: drop/keep value matchers against typed json values; a tenth: parser error, drop __error__, then a failing template), over label sets of 0-4 labels and lines incl. SGR-coloured ones; evaluated from query text (so the parser's choice of rename source/target is observed); non-trivial = the stage changes the label set or the line of some record (result differs from the input records) ; distinct by request line"
 		kinds := []string{"lblfmt", "lblfmt", "linefmt", "drop", "keep", "decolorize"}
 		spec := logSpec("rewriting stages: LogQL.Stage.apply (label_format/line_format/drop/keep/decolorize) == Engine.Eval", kinds, 3, 8,
 			func(t LogCase, impl Sexp) bool {
